@@ -1471,8 +1471,12 @@ class GeoboxTiles:
     ) -> Dict[Tuple[int, int], List[Tuple[int, int]]]:
         deps: Dict[Tuple[int, int], List[Tuple[int, int]]] = {}
 
+        NY, NX = src.base.shape.yx
         for idx in self._all_tiles():
             bbox = self.pix_bbox(idx).transform(A).round()
+            if bbox.right <= 0 or bbox.top <= 0 or bbox.left >= NX or bbox.bottom >= NY:
+                # completely outside of the source image (tile lookup would clamp to the nearest edge tile)
+                continue
             src_idx = list(src.tiles(bbox))
             deps[idx] = src_idx
 
